@@ -380,6 +380,8 @@ def b_type(I, args, kw, node):
 def b_tuple(I, args, kw, node):
     if not args:
         return ()
+    if isinstance(args[0], SymList):
+        return SymList(args[0].arr, args[0].n, "tuple")      # immutable copy of symbolic length
     return tuple(I.iterate(args[0], node))
 
 
@@ -471,11 +473,41 @@ def b_sum(I, args, kw, node):
 
 @builtin("any")
 def b_any(I, args, kw, node):
+    if len(args) == 1 and isinstance(args[0], SymGen):
+        return _symgen_quant(I, args[0], node, False)
     return I.disj([I.truth(x) for x in I.iterate(args[0], node)])
+
+
+def _symgen_quant(I, g, node, universal):
+    """all()/any() over `elt for x in seq` with a symbolic number of items: the element is evaluated once at an arbitrary
+    index k in range; conditions decided on the way must hold at every index (obligation, as for min/max)."""
+    from .interp import Frame
+    lo, hi = to_z3(g.lo), to_z3(g.hi)
+    k = z3.Int(I.fresh_name("gk"))
+    npc = len(I.pc)
+    I.pc.append(z3.And(lo <= k, k < hi))
+    fr = Frame(g.frame.module, {}, parent=g.frame, spec=g.frame.spec)
+    I.frames.append(fr)
+    try:
+        I.assign(g.target, g.getter(k))
+        el = I.truth(I.ev(g.elt))
+    finally:
+        I.frames.pop()
+    extras = [to_z3(c) for c in I.pc[npc + 1:]]
+    guard = I.pc[npc]
+    del I.pc[npc:]
+    if extras:
+        I.oblige("call-pre", "generator-element-uniform", z3.ForAll([k], z3.Implies(guard, z3.And(*extras))))
+    el = z3.BoolVal(el) if isinstance(el, bool) else el
+    if universal:
+        return z3.ForAll([k], z3.Implies(guard, el))
+    return z3.Exists([k], z3.And(guard, el))
 
 
 @builtin("all")
 def b_all(I, args, kw, node):
+    if len(args) == 1 and isinstance(args[0], SymGen):
+        return _symgen_quant(I, args[0], node, True)
     return I.conj([I.truth(x) for x in I.iterate(args[0], node)])
 
 
